@@ -24,6 +24,7 @@ import (
 
 	"github.com/AdguardTeam/AdGuardHome/internal/schedule"
 	"github.com/AdguardTeam/AdGuardHome/internal/vutil"
+	"gopkg.in/yaml.v3"
 )
 
 // C18, request path: ApplyBlockedServices / ApplyAdditionalFiltering consult
@@ -397,6 +398,7 @@ func c18sSchedJSON(zone string, f []string) map[string]any {
 
 // c18sWorld is the implementation state of one block.
 type c18sWorld struct {
+	polluted bool
 	d       *DNSFilter
 	gLoc    *time.Location
 	cli     *BlockedServices
@@ -405,6 +407,17 @@ type c18sWorld struct {
 }
 
 func (w *c18sWorld) do(f []string) []string {
+	if f[0] == "C18.sreset" {
+		// package-level state left behind by an EARLIER block (which reported it): this block could not be
+		// replayed on its own, so it is skipped
+		b, _ := json.Marshal(schedule.EmptyWeekly())
+		w.polluted = string(b) != `{"time_zone":"Local"}`
+		if w.polluted {
+			return []string{"polluted"}
+		}
+	} else if w.polluted {
+		return []string{"skipped"}
+	}
 	switch f[0] {
 	case "C18.sreset":
 		w.cli, w.cLoc, w.gLoc = nil, nil, time.Local
@@ -440,6 +453,47 @@ func (w *c18sWorld) do(f []string) []string {
 		}
 
 		return []string{strconv.Itoa(rec.Code)}
+	case "C18.sload":
+		// start-up: the configuration file is decoded over the default configuration, whose
+		// blocked_services.schedule is pre-filled with schedule.EmptyWeekly() (internal/home/config.go)
+		zone := vutil.Unhex(f[1])
+		var sb strings.Builder
+		sb.WriteString("blocked_services:\n  schedule:\n    time_zone: " + strconv.Quote(zone) + "\n")
+		for i, k := range c18sDayKeys {
+			a, b := c18fI64(f[2+2*i]), c18fI64(f[3+2*i])
+			if a == 0 && b == 0 {
+				continue
+			}
+			sb.WriteString("    " + k + ":\n      start: " + strconv.FormatInt(a/1_000_000_000, 10) + "s\n      end: " +
+				strconv.FormatInt(b/1_000_000_000, 10) + "s\n")
+		}
+		ids, _ := json.Marshal(c18sGlobalIDs[:vutil.Atoi(f[16])])
+		sb.WriteString("  ids: " + string(ids) + "\n")
+		def := &struct {
+			BlockedServices *BlockedServices `yaml:"blocked_services"`
+		}{BlockedServices: &BlockedServices{Schedule: schedule.EmptyWeekly(), IDs: []string{}}}
+		if err := yaml.Unmarshal([]byte(sb.String()), def); err != nil {
+			panic("c18: config load: " + err.Error())
+		}
+		func() {
+			w.d.confMu.Lock()
+			defer w.d.confMu.Unlock()
+
+			w.d.conf.BlockedServices = def.BlockedServices
+		}()
+		w.gLoc, _ = time.LoadLocation(zone)
+
+		return []string{"ok"}
+	case "C18.supdnos":
+		// an update that carries no schedule: the handler installs schedule.EmptyWeekly()
+		body, _ := json.Marshal(map[string]any{"ids": c18sGlobalIDs[:vutil.Atoi(f[1])]})
+		rec := httptest.NewRecorder()
+		w.d.handleBlockedServicesUpdate(rec, httptest.NewRequest(http.MethodPut, "/control/blocked_services/update", bytes.NewReader(body)))
+		if rec.Code == http.StatusOK {
+			w.gLoc = time.Local
+		}
+
+		return []string{strconv.Itoa(rec.Code)}
 	case "C18.sset":
 		body, _ := json.Marshal(c18sGlobalIDs[:vutil.Atoi(f[1])])
 		rec := httptest.NewRecorder()
@@ -447,8 +501,15 @@ func (w *c18sWorld) do(f []string) []string {
 
 		return []string{strconv.Itoa(rec.Code)}
 	case "C18.scli":
-		if !vutil.UnB(f[1]) {
+		if f[1] == "0" {
 			w.cli, w.cLoc = nil, nil
+
+			return []string{"ok"}
+		}
+		if f[1] == "2" {
+			// a client without a schedule of its own gets the empty one (internal/home/clients.go)
+			w.cli = &BlockedServices{Schedule: schedule.EmptyWeekly(), IDs: c18sClientIDs[:vutil.Atoi(f[17])]}
+			w.cLoc = time.Local
 
 			return []string{"ok"}
 		}
@@ -664,9 +725,46 @@ func c18sGen(r *rand.Rand, emit vutil.Emit) {
 				now = end.Add(-time.Duration(r.IntN(7200)) * time.Second)
 			}
 		}
+		noSched := func(n int) *conf { return &conf{zone: "Local", loc: time.Local, n: n} }
+		zeros := []string{"-", "0", "0", "0", "0", "0", "0", "0", "0", "0", "0", "0", "0", "0", "0"}
+		reqNow := func(site string) {
+			emit("C18.sreq", site, strconv.FormatInt(now.Unix(), 10), strconv.Itoa(now.Nanosecond()),
+				strconv.Itoa(offAt(g, now)), strconv.Itoa(offAt(cli, now)))
+		}
+		if blk == 0 || r.IntN(3) == 0 {
+			// start-up, then users of the empty schedule: config load -> client without a schedule ->
+			// request -> update without a schedule -> request.  (Always in the first block: state shared
+			// through package-level variables shows up there, later blocks would be skipped.)
+			g = newConf(nil, now)
+			if blk == 0 {
+				for j := range g.days {
+					g.days[j] = full
+				}
+				g.n = 1
+			}
+			emit(append([]string{"C18.sload"}, fmtConf(g)...)...)
+			cli = noSched(1 + r.IntN(2))
+			emit(append(append([]string{"C18.scli", "2"}, zeros...), strconv.Itoa(cli.n))...)
+			reqNow("client")
+			g = noSched(1 + r.IntN(2))
+			emit("C18.supdnos", strconv.Itoa(g.n))
+			reqNow("global")
+		}
 		nOps := 20 + r.IntN(50)
 		for i := 0; i < nOps; i++ {
-			switch k := r.IntN(20); {
+			switch k := r.IntN(23); {
+			case k >= 20:
+				switch k {
+				case 20:
+					g = newConf(g, now)
+					emit(append([]string{"C18.sload"}, fmtConf(g)...)...)
+				case 21:
+					g = noSched(r.IntN(3))
+					emit("C18.supdnos", strconv.Itoa(g.n))
+				default:
+					cli = noSched(r.IntN(3))
+					emit(append(append([]string{"C18.scli", "2"}, zeros...), strconv.Itoa(cli.n))...)
+				}
 			case k < 11:
 				// a request after a clock advance
 				var d time.Duration
